@@ -485,6 +485,9 @@ pub fn eval_unit_name(
                     .into_iter()
                     .map(|(k, v)| (k, -v))
                     .collect::<BTreeMap<_, _>>();
+                if right == Numeric::zero() || right == Numeric::Float(0.0) {
+                    return Err(QueryError::generic("Division by zero".to_string()));
+                }
                 Ok((
                     crate::algorithms::btree_merge(&left_unit, &right_unit, |a, b| {
                         if a + b != 0 {
@@ -508,6 +511,14 @@ pub fn eval_unit_name(
                     ));
                 }
                 let right = right.value.to_f64();
+                // The target's units and its constant factor are both
+                // raised to this power, which only works for whole powers.
+                if right.fract() != 0.0 {
+                    return Err(QueryError::generic(
+                        "Exponents in the right hand side of conversions must be integers"
+                            .to_string(),
+                    ));
+                }
                 let (left_unit, left_value) = eval_unit_name(ctx, &binop.left)?;
                 if (right as i32) < 0
                     && (left_value == Numeric::zero() || left_value == Numeric::Float(0.0))
